@@ -17,6 +17,19 @@ def run(res, pool, tier, seed):
     engine.run_jobs(res, jobs, pool)
 
 
+def represent(x, pose, num, rng):
+    """the same point set presented differently: reversed vertex cycle / other face order; (VARY rescales and negates direction vectors)"""
+    if x["k"] == "Polygon":
+        return build(x, pose, num, {"perm": list(range(len(x["cyc"]) - 1, -1, -1))})
+    if x["k"] == "Polyhedron":
+        order = list(range(len(x["fs"])))
+        rng.shuffle(order)
+        return build(x, pose, num, {"forder": order, "rev": set(order[::2])})
+    if x["k"] == "Segment":
+        return build(x, pose, num, {"swap": True})
+    return build(x, pose, num)
+
+
 def queries(la, lb, a, b, case, which, pose, out, bad):
     """run every query on one side (base or transformed); `which` selects the expected values"""
     k = case["T"]["k"] if which == "t" else 1
@@ -83,6 +96,21 @@ def replay_case(case, tag, rng, tier):
             bad("C13.construct", "%s side could not be constructed" % which, e1 or e2, which)
             continue
         queries(la, lb, x, y, case, which, pose, out, bad)
+        for o, lo in ((x, la), (y, lb)):
+            if o["k"] == "Vector":
+                continue
+            twin, exc = call(represent, o, pose, num, rng)
+            if exc is not None:
+                continue
+            val, exc = call(lambda: lo == twin)
+            out["calls"] += 1
+            if exc is not None or val is not True:
+                bad("C13.eq_self", "%s side: an object is not == to another presentation of itself (%r)" % (which, exc["cls"] if exc else val),
+                    exc or observe(val), which)
+            elif common.admit.hash_boundary_free([o], pose):
+                h1, h2 = call(hash, lo)[0], call(hash, twin)[0]
+                if h1 != h2:
+                    bad("C13.hash_self", "%s side: equal presentations hash differently" % which, {"k": "-"}, which)
     if not out["mism"]:
         out["sample"] = {"a": a, "b": b, "T": T, "expected_base": case["inter"], "expected_transformed": case["tinter"]}
     return out
